@@ -1,6 +1,6 @@
 """C02 — no memory-unsafe access is reachable (claimed in part): R-TF, R-UNSAFE census/obligations, type-level witnesses."""
 from ..engine import Ctx, LIB_CRATES
-from . import tf
+from . import tf, unsafe_rules
 
 
 def main(pid, tier, repo=None):
@@ -9,5 +9,18 @@ def main(pid, tier, repo=None):
     for cfg in configs:
         ctx.use_config(cfg)
         tf.run(ctx, LIB_CRATES)
+        unsafe_rules.rule_census(ctx, LIB_CRATES)
+        unsafe_rules.rule_grid(ctx)
+        unsafe_rules.rule_ans(ctx)
+        unsafe_rules.rule_refill(ctx)
+        unsafe_rules.rule_transmute(ctx)
+        unsafe_rules.rule_grouped(ctx)
     ctx.not_decided("bounds of SIMD kernels and scratch buffers (class h), std::arch itself")
-    return ctx.finish("R-TF + R-UNSAFE on MIR/HIR facts")
+    ctx.not_decided("wrapped integer arithmetic feeding safe indexing (a panic, i.e. C01, not UB)")
+    return ctx.finish(
+        "Two mechanisms, decided for every input and every CPU: (R-TF) a #[target_feature] function is entered only where the features "
+        "are enabled on the caller or detected on every feasible path (must-dataflow over MIR with call-graph summaries for "
+        "attribute-less unsafe fns and closures); (R-UNSAFE) every unsafe site belongs to a reviewed class, and the classes that guard "
+        "raw indexing re-check their guard: bounded index arguments in the grid views, mask/table-size agreement of the unchecked "
+        "ANS lookup, length tests dominating raw slices, the range test before the enum transmute, exact Send/Sync impl bounds. "
+        "SIMD kernel index arithmetic (class h) is inventoried, not decided.")
